@@ -63,6 +63,8 @@ def rule_regex(ctx):
 # C02.TRUTHY: a valid message behind (or between) garbage is not itself taken for garbage
 IMPORTS = [('C03', 'C03.READ'), ('C13', 'C13.UNKNOWN'), ('C02', 'C02.TRUTHY')]
 
+EXPLANATION = EXPLANATION + " When a buffer is not organised into the helper roles (scan / resynchroniser / frontal drop) through which the symbolic rules extend over all inputs, those rules are decided on an end-to-end catalogue instead and say so: Buffer.process as a whole is evaluated on 30 constant buffer contents x 3 thresholds (valid messages, junk before/between/after, unknown and partial elements, unclosed junk beyond the threshold, quotes and '>' in text, multi-line spellings) and compared with a reference written from the property."
+
 RULES = [
     ("C11.REGEX", rule_regex, "no regex on the parse path has an unbounded repeat with an ambiguous iteration (exponential backtracking)"),
     ("C11.PROGRESS", rule_progress, "every loop-back of both framing loops strictly advances (buffer shrinks >= 1 / scan position increases)"),
